@@ -258,9 +258,15 @@ def judge_include_bytes(asm, acc, case):
         main = os.path.join(srcdir, 'main.asm')
         open(main, 'w').write('bytes 1 2 3\ninclude_bytes %s\nbytes 0xee\n' % name)
         exp = pre + content + b'\xee'
-        cwd = {'src': srcdir, 'elsewhere': other, 'decoy': decoy, 'root': '/'}[case['cwd']]
+        gone = os.path.join(root, 'gone')
+        cwd = {'src': srcdir, 'elsewhere': other, 'decoy': decoy, 'root': '/', 'removed': gone}[case['cwd']]
         incs = [incdir] if case['loc'] == 'incdir' else ([] if rng.random() < 0.5 else [incdir])
-        os.chdir(cwd)
+        if case['cwd'] == 'removed':
+            os.mkdir(gone)
+            os.chdir(gone)
+            os.rmdir(gone)            # the working directory no longer exists; every path the program needs is absolute
+        else:
+            os.chdir(cwd)
         acc['n'] += 1
         if case['cwd'] != 'src':
             acc['ntkeys'].add(core.ckey('inc', tuple(sorted(case.items()))))
@@ -366,20 +372,20 @@ def run_shard(sh, deadline):
 
 
 def plan(tier, seed):
-    shards = [{'kind': 'num', 'seed': seed + i, 'random': 1500 if tier == 'quick' else 20000} for i in range(4 if tier == 'quick' else 16)]
-    shards += [{'kind': 'str', 'seed': seed, 'idx': i, 'count': 400 if tier == 'quick' else 8000} for i in range(8 if tier == 'quick' else 32)]
+    shards = [{'kind': 'num', 'seed': seed + i, 'random': 1500 if tier == 'quick' else 40000} for i in range(4 if tier == 'quick' else 64)]
+    shards += [{'kind': 'str', 'seed': seed, 'idx': i, 'count': 400 if tier == 'quick' else 16000} for i in range(8 if tier == 'quick' else 128)]
     cases = []
     for loc in ('adjacent', 'incdir'):
-        for cwd in ('src', 'elsewhere', 'decoy', 'root'):
+        for cwd in ('src', 'elsewhere', 'decoy', 'root', 'removed'):
             for decoy in ('same', 'different'):
-                for via in ('api', 'api-rel', 'cli'):
+                for via in (('api', 'api-rel', 'cli') if cwd != 'removed' else ('api',)):
                     for size in ([0, 1, 5000] if tier == 'quick' else [0, 1, 2, 64, 1000, 5000, 70000]):
                         if via == 'cli' and tier == 'quick' and size == 1:
                             continue
                         cases.append({'kind': 'inc', 'loc': loc, 'cwd': cwd, 'decoy': decoy, 'via': via, 'size': size})
     nsh = 16
     shards += [{'kind': 'inc', 'cases': cases[i::nsh]} for i in range(nsh)]
-    shards += [{'kind': 'two', 'seed': seed + i, 'count': 20 if tier == 'quick' else 300} for i in range(2)]
+    shards += [{'kind': 'two', 'seed': seed + i, 'count': 20 if tier == 'quick' else 300} for i in range(2 if tier == 'quick' else 32)]
     return {'shards': shards, 'budget_s': 300 if tier == 'quick' else 2400, 'extra_cov': {'include_bytes_cases': len(cases)}}
 
 
